@@ -1,6 +1,12 @@
 package main
 
 // C08: the applicable trust policy statement (verifier/trustpolicy).
+//
+// Selection: getArtifactPathFromReference, validateRegistryScopeFormat, the three selection
+// methods and the clone methods. Validity facts the property relies on ("uniqueness of scopes
+// across statements guaranteed by validation"): validateRegistryScopes and the two Validate
+// methods, with validatePolicyCore as an oracle (what it answers is irrelevant for C08: the
+// theorems of props/C08_Generated.v hold for EVERY oracle; C09 owns its body).
 func init() {
 	const tp = ".../verifier/trustpolicy"
 	Register("C08", []Target{
@@ -13,5 +19,18 @@ func init() {
 		{Pkg: tp, Func: "(*OCIDocument).GetApplicableTrustPolicy"},
 		{Pkg: tp, Func: "(*BlobDocument).GetApplicableTrustPolicy"},
 		{Pkg: tp, Func: "(*BlobDocument).GetGlobalTrustPolicy"},
+		// validation: what makes the selected statement unique
+		{Pkg: tp, Func: "validateRegistryScopes", NonNil: true},
+		{Pkg: ".../internal/container", Func: "New"},
+		{Pkg: ".../internal/container", Func: "Set.Add"},
+		{Pkg: ".../internal/container", Func: "Set.Contains"},
+		{Pkg: tp, Func: "validatePolicyCore", Oracle: true},
+		{Pkg: tp, Func: "(*OCIDocument).Validate", NilableRecv: true},
+		{Pkg: tp, Func: "(*BlobDocument).Validate", NilableRecv: true},
+		// Not listed (outside the GoLite subset, see docs/audit/C08.md section GoLite):
+		// verifier.(*verifier).SkipVerify / Verify / VerifyBlob, where a selection error becomes
+		// notation.ErrorNoApplicableTrustPolicy{Msg: err.Error()}: call of (error).Error
+		// (verifier/verifier.go:249, 278, 360), reflect.DeepEqual (:256), and the verifier struct drags
+		// x509 / url / big.Int records into the file.
 	})
 }
